@@ -84,12 +84,16 @@ void run_case(Ctx& c) {
     const Tape& t = c.tape;
     Config cfg;
     cfg.announce_min_interval = seconds(1 + t.h(0) % 60);
+    {   // arbitrary throttle configurations: also minimum intervals of an hour and more (beyond the one-hour cap of the burst window)
+        static const long long kLong[] = {3600, 3601, 7200, 86400};
+        if (t.h(0) >= 232) { cfg.announce_min_interval = seconds(kLong[t.h(0) % 4]); c.label("min_interval_of_an_hour_or_more"); }
+    }
     cfg.announce_burst_limit = 1 + t.h(1) % 6;
     cfg.announce_burst_window = seconds(cfg.announce_min_interval.count() * (1 + t.h(2) % 5) + t.h(3) % 7);
     cfg.announce_pow_difficulty = static_cast<std::uint8_t>(t.h(4) % 9);
     cfg.handshake_pow_difficulty = 0;
     cfg.min_manifest_ttl = seconds(30);
-    cfg.max_manifest_ttl = seconds(6 * 3600);
+    cfg.max_manifest_ttl = seconds(24 * 3600);
     cfg.cleanup_interval = seconds(3600 * 24);
     cfg.key_rotation_interval = seconds(3600);
     cfg.fetch_retry_attempt_limit = 1;
